@@ -74,9 +74,22 @@ def gen_files(r, txn, variants=()):
             f = RC.with_discriminators(f, txn, list(variants), r)
         if r.random() < 0.5:
             # a rule that asks a supplemental source: its answer depends on the rows handed in WITH THIS classification only
-            f['rules'] = [{'name': 'Ordered', 'match': r.choice(['any(r.item == "Book" for r in orders)', 'len(orders) > 0',
-                                                                 'len([r for r in orders if r.amount > 10]) >= 1']),
-                           'category': 'BySource', 'subcategory': 'O', 'tags': ['{len(orders)}']}] + f['rules']
+            cond = r.choice(['any(r.item == "Book" for r in orders)', 'len(orders) > 0', 'len([r for r in orders if r.amount > 10]) >= 1'])
+            rule = {'name': 'Ordered', 'match': cond, 'category': 'BySource', 'subcategory': 'O', 'tags': ['{len(orders)}']}
+            k = r.random()
+            if k < 0.3:
+                # the source is asked through a TOP-LEVEL VARIABLE: undefined for a classification that comes without the rows, defined for
+                # the next one that brings them - whatever was remembered about it in between
+                f['variables'] = dict(f['variables'], has_order=cond)
+                rule['match'] = r.choice(['has_order', 'has_order and amount == amount', 'not (not has_order)'])
+            elif k < 0.5:
+                rule['lets'] = [('got', cond)]
+                rule['match'] = 'got'
+            elif k < 0.6:
+                f['variables'] = dict(f['variables'], n_orders='len(orders)')
+                rule['match'] = 'n_orders >= 1'
+                rule['tags'] = ['{n_orders}']
+            f['rules'] = [rule] + f['rules']
         words = [w for w in txn['description'].upper().split() if w.isalnum()]
         if words and r.random() < 0.6:
             # two rules true of the base line on which the two rule modes disagree (file order vs specificity)
@@ -372,6 +385,17 @@ def run(ctx):
             t = {'k': 'classify', 'txn': {'description': 'UBER TRIP', 'amount': 12.5, 'field': None, 'source': '', 'location': None}}
             seqs.append([a, b, t])
             seqs.append([b, a, t, b, t, a, a, t])
+            # directed, every run: the SAME PATH re-loaded after an edit that keeps its size within the file system's timestamp granularity
+            # (pinned mtime), rules / transforms asked in either order; and the same unchanged file re-loaded under the other rule mode
+            pin = 1700000000
+            e1 = {'k': 'load', 'kind': 'rules', 'name': 'P', 'text': '[Uber]\nmatch: contains("UBER")\ncategory: Food\n', 'mode': 'first_match', 'mtime': pin, 'order': 'rt'}
+            e2 = dict(e1, name='Pe', text=e1['text'].replace('Food', 'Fuel'))
+            seqs.append([e1, t, e2, t])
+            seqs.append([dict(e1, order='tr'), t, dict(e2, order='tr'), t, dict(e1, order='tr'), t])
+            g = {'k': 'load', 'kind': 'rules', 'name': 'G', 'mode': 'first_match', 'mtime': pin, 'order': 'tr',
+                 'text': '[General]\nmatch: contains("UBER")\ncategory: ByOrder\n\n[Specific]\nmatch: contains("UBER") and amount > 1\ncategory: BySpecificity\n'}
+            seqs.append([g, t, dict(g, name='Gm', mode='most_specific'), t, g, t])
+            seqs.append([dict(g, mode='most_specific', order='rt'), t, dict(g, name='Gm', order='rt'), t])
             n = 50 if ctx.quick else 900
             for _ in range(n):
                 seqs.append(gen_sequence(r, r.choice([3, 5, 8, 12])))
